@@ -22,8 +22,11 @@ for p in sorted(glob.glob(os.path.join(root, "harness/props/*/meta.json"))):
     if os.path.exists(fp):
         for e in json.load(open(fp)):
             # a fixed entry names the proposed diff it was repaired by; the commit id comes from APPLIED.txt
-            if e.get("status") == "fixed" and e.get("commit", "PENDING") in ("PENDING", "") and e.get("fix") in applied:
-                e["commit"] = applied[e["fix"]]
+            fx = e.get("fix", "")
+            if fx and not fx.endswith(".diff"):
+                fx += ".diff"
+            if e.get("status") == "fixed" and e.get("commit", "PENDING") in ("PENDING", "") and fx in applied:
+                e["commit"] = applied[fx]
             findings.append(e)
     c = {
         "property_id": pid,
